@@ -544,7 +544,7 @@ func ruleR03c(c *Ctx) {
 		return
 	}
 	c.seen(c.declKey("soyhtml", fd))
-	_ = p.TypesInfo
+	info := p.TypesInfo
 	need := map[rune]bool{'"': true, '\'': true, '&': true, '<': true, '>': true}
 	got := map[rune]bool{}
 	hasDefault := sw.hasDefault
@@ -570,6 +570,31 @@ func ruleR03c(c *Ctx) {
 	for ch := range need {
 		if !got[ch] {
 			c.bad("R03c", fmt.Sprintf("soyhtml.htmlEscaper case %q", ch), sw.Pos(), fmt.Sprintf("the escaper has no case for %q: it reaches HTML output raw", string(ch)))
+		}
+	}
+	if !hasDefault {
+		// the search form needs no default arm: only the characters searched for reach the replacement, and each
+		// of them must then have one
+		var input types.Object
+		for _, fl := range fd.Type.Params.List {
+			for _, nm := range fl.Names {
+				if o := info.Defs[nm]; o != nil && isStringType(o.Type()) {
+					input = o
+				}
+			}
+		}
+		if input != nil {
+			if search := findSearchScan(fd, input, info); search != nil {
+				var extra []string
+				for _, ch := range search.set {
+					if !got[ch] {
+						extra = append(extra, string(ch))
+					}
+				}
+				c.check(len(extra) == 0, "R03c", "soyhtml.htmlEscaper has-default", sw.Pos(), "no default arm is needed: the search hands over only characters that have a replacement",
+					"the search finds "+strings.Join(extra, " ")+" but there is no replacement for it: the character is dropped from the output")
+				return
+			}
 		}
 	}
 	c.check(hasDefault, "R03c", "soyhtml.htmlEscaper has-default", sw.Pos(), "default arm present", "no default arm: bytes that need no escaping are not handled")
@@ -934,6 +959,18 @@ func ruleR03g(c *Ctx) {
 		})
 		return found
 	}
+	// the scan written as a search loop (strings.IndexAny for the special characters, cut after each hit)
+	search := findSearchScan(fd, input, info)
+	if search != nil {
+		var missing []string
+		for _, ch := range specials {
+			if !strings.ContainsRune(search.set, ch) {
+				missing = append(missing, string(ch))
+			}
+		}
+		c.check(len(missing) == 0, "R03g", "soyhtml.htmlEscaper searches-for-every-special", search.loop.Pos(), fmt.Sprintf("the search looks for every character the escaper replaces (%q)", search.set),
+			fmt.Sprintf("the escaper searches for %q but replaces %q: %s is never found and reaches the output raw", search.set, specials, strings.Join(missing, " ")))
+	}
 	// walk with the stack of enclosing ifs
 	var stack []ast.Node
 	nw := 0
@@ -967,6 +1004,22 @@ func ruleR03g(c *Ctx) {
 				if id, ok := ast.Unparen(se.X).(*ast.Ident); ok && info.Uses[id] == input && se.Low != nil && cursorOK(exprKey(se.Low)) &&
 					(se.High == nil || exprKey(se.High) == counter) {
 					c.ok("R03g", key, call.Pos(), "the scan loop's own write of the run since the last replaced character")
+					continue
+				}
+			}
+			if search != nil {
+				// the run before a hit: in[:i]
+				if se, ok := ast.Unparen(a).(*ast.SliceExpr); ok && se.Low == nil && se.High != nil && call.Pos() > search.loop.Body.Pos() && call.End() < search.loop.Body.End() {
+					if id, ok := ast.Unparen(se.X).(*ast.Ident); ok && info.Uses[id] == input {
+						if hid, ok := ast.Unparen(se.High).(*ast.Ident); ok && info.Uses[hid] == search.idx {
+							c.ok("R03g", key, call.Pos(), "the search loop's own write of the run before the character it found")
+							continue
+						}
+					}
+				}
+				// what is left when the search finds nothing more: written after the loop
+				if id, ok := ast.Unparen(a).(*ast.Ident); ok && info.Uses[id] == input && call.Pos() > search.loop.End() {
+					c.ok("R03g", key, call.Pos(), "written after the search loop, which is left only when the rest holds none of the searched characters")
 					continue
 				}
 			}
@@ -1029,6 +1082,8 @@ func ruleR03g(c *Ctx) {
 		})
 		c.check(len(moved) == 0, "R03g", "soyhtml.htmlEscaper scans-every-byte", loop.Pos(), "the scan advances one byte at a time and examines each",
 			"the scan position is also moved inside the loop body ("+strings.Join(moved, ", ")+"): the bytes stepped over are copied to the output without being examined, so a special character among them is written raw")
+	} else if search != nil {
+		c.ok("R03g", "soyhtml.htmlEscaper scans-every-byte", search.loop.Pos(), "the search examines every byte of what is left and the text is cut right after the character found")
 	} else {
 		c.unk("R03g", "soyhtml.htmlEscaper scans-every-byte", fd.Pos(), "the escaper's scan loop (a counted for loop around the switch) was not identified")
 	}
@@ -1264,4 +1319,124 @@ func ruleR03j(c *Ctx) {
 	c.check(!bad, "R03j", "soyhtml.state.renderBlock walks-the-block", fd.Pos(), "every returning path has walked the block",
 		"a path of renderBlock returns without having handed the block to the walker: the text it returns was produced some other way and did not pass the print command's escaping decision")
 	_ = badPos
+}
+
+// searchScan: the escaper written as a search loop instead of a byte-by-byte scan:
+//
+//	for { i := strings.IndexAny(in, S); if i < 0 { break }; <replace in[i]>; write(in[:i]); ...; in = in[i+1:] }
+//	write(in)
+//
+// Returns the loop, the constant set S, the index variable, and whether the loop is left only by that break.
+type searchScan struct {
+	loop *ast.ForStmt
+	set  string
+	idx  types.Object
+}
+
+func findSearchScan(fd *ast.FuncDecl, input types.Object, info *types.Info) *searchScan {
+	var out *searchScan
+	ast.Inspect(fd.Body, func(x ast.Node) bool {
+		loop, ok := x.(*ast.ForStmt)
+		if !ok || out != nil || loop.Cond != nil || loop.Init != nil || loop.Post != nil || len(loop.Body.List) < 3 {
+			return true
+		}
+		// i := strings.IndexAny(in, S)
+		var idx types.Object
+		set := ""
+		var rhs ast.Expr
+		switch st := loop.Body.List[0].(type) {
+		case *ast.AssignStmt:
+			if len(st.Lhs) == 1 && len(st.Rhs) == 1 {
+				idx, rhs = defObj(info, st.Lhs[0]), st.Rhs[0]
+			}
+		case *ast.DeclStmt:
+			if gd, ok := st.Decl.(*ast.GenDecl); ok && len(gd.Specs) == 1 {
+				if vs, ok := gd.Specs[0].(*ast.ValueSpec); ok && len(vs.Names) == 1 && len(vs.Values) == 1 {
+					idx, rhs = info.Defs[vs.Names[0]], vs.Values[0]
+				}
+			}
+		}
+		call, ok := ast.Unparen(rhs).(*ast.CallExpr)
+		if idx == nil || !ok || len(call.Args) != 2 {
+			return true
+		}
+		cal := calleeFunc(call, info)
+		if cal == nil || cal.Pkg() == nil || cal.Pkg().Path() != "strings" || cal.Name() != "IndexAny" {
+			return true
+		}
+		if id, ok := ast.Unparen(call.Args[0]).(*ast.Ident); !ok || info.Uses[id] != input {
+			return true
+		}
+		if tv := info.Types[call.Args[1]]; tv.Value != nil && tv.Value.Kind() == constant.String {
+			set = constant.StringVal(tv.Value)
+		} else {
+			return true
+		}
+		// if i < 0 { break }
+		ifs, ok := loop.Body.List[1].(*ast.IfStmt)
+		if !ok || len(ifs.Body.List) != 1 {
+			return true
+		}
+		if br, ok := ifs.Body.List[0].(*ast.BranchStmt); !ok || br.Tok != token.BREAK {
+			return true
+		}
+		be, ok := ast.Unparen(ifs.Cond).(*ast.BinaryExpr)
+		if !ok || !((be.Op == token.LSS && exprKey(be.Y) == "0") || (be.Op == token.EQL && exprKey(be.Y) == "-1")) {
+			return true
+		}
+		if id, ok := ast.Unparen(be.X).(*ast.Ident); !ok || info.Uses[id] != idx {
+			return true
+		}
+		// no other break in the loop
+		breaks := 0
+		ast.Inspect(loop.Body, func(y ast.Node) bool {
+			switch n := y.(type) {
+			case *ast.BranchStmt:
+				if n.Tok == token.BREAK {
+					breaks++
+				}
+			case *ast.SwitchStmt, *ast.TypeSwitchStmt, *ast.SelectStmt, *ast.ForStmt, *ast.RangeStmt:
+				if n != ast.Node(loop) {
+					// a break inside binds to the inner statement
+					inner := 0
+					ast.Inspect(n, func(z ast.Node) bool {
+						if b, ok := z.(*ast.BranchStmt); ok && b.Tok == token.BREAK && b.Label == nil {
+							inner++
+						}
+						return true
+					})
+					breaks -= inner
+				}
+			}
+			return true
+		})
+		if breaks != 1 {
+			return true
+		}
+		// in = in[i+1:] as the last statement
+		last, ok := loop.Body.List[len(loop.Body.List)-1].(*ast.AssignStmt)
+		if !ok || len(last.Lhs) != 1 || len(last.Rhs) != 1 {
+			return true
+		}
+		if id, ok := ast.Unparen(last.Lhs[0]).(*ast.Ident); !ok || info.Uses[id] != input {
+			return true
+		}
+		se, ok := ast.Unparen(last.Rhs[0]).(*ast.SliceExpr)
+		if !ok || se.High != nil || se.Low == nil {
+			return true
+		}
+		if id, ok := ast.Unparen(se.X).(*ast.Ident); !ok || info.Uses[id] != input {
+			return true
+		}
+		lb, ok := ast.Unparen(se.Low).(*ast.BinaryExpr)
+		if !ok || lb.Op != token.ADD || exprKey(lb.Y) != "1" {
+			return true
+		}
+		if id, ok := ast.Unparen(lb.X).(*ast.Ident); !ok || info.Uses[id] != idx {
+			return true
+		}
+		out = &searchScan{loop: loop, set: set, idx: idx}
+		return false
+	})
+	return out
 }
